@@ -28,8 +28,30 @@ IE = 'outrank.algorithms.importance_estimator'
 TR = 'outrank.task_ranking'
 
 
-def run(repo, chk, tier):
+def _ranker_in_use(repo, chk):
+    """the function the ranking task really calls to produce 3mr_ranks.tsv: rank_features_3MR unless the task module binds another one"""
     fn = repo.func(IE, 'rank_features_3MR')
+    rk = repo.mod(TR).funcs.get('outrank_task_conduct_ranking')
+    if rk is None:
+        return fn
+    m = rk.module
+    direct = [c for c in calls(rk) if m.dotted(c.func) == f'{IE}.rank_features_3MR']
+    if direct:
+        return fn
+    for c in calls(rk):
+        d = m.dotted(c.func) or ''
+        written = ast.unparse(c.func).split('.')[-1]
+        if d.startswith('outrank.') and (written == 'rank_features_3MR' or 'rank_features' in d.split('.')[-1]):
+            other = repo.find_func(d)
+            if other is not None and len(other.params) >= 6:
+                chk.note(f'the ranking task calls {d} (written {ast.unparse(c.func)}); the rules are applied to that function, not to rank_features_3MR')
+                chk.extra['ranker_in_use'] = d
+                return other
+    return fn
+
+
+def run(repo, chk, tier):
+    fn = _ranker_in_use(repo, chk)
     m = fn.module
     p = fn.params
     rel, red, relat, strategy, alpha, beta = p[0], p[1], p[2], p[3], p[4], p[5]
@@ -303,7 +325,7 @@ def aggregator(chk, fn, helper, ranked, red, relat, strategy, E):
 
 def call_site(repo, chk, fn):
     rk = repo.func(TR, 'outrank_task_conduct_ranking')
-    cs = [c for c in calls(rk) if rk.module.dotted(c.func) == f'{IE}.rank_features_3MR']
+    cs = [c for c in calls(rk) if rk.module.dotted(c.func) == f'{fn.module.name}.{fn.qualname}']
     if len(cs) != 1:
         chk.unsure('C17.7', 'R6', rk.site(), 'rank_features_3MR(...)', f'{len(cs)} call sites')
         return
